@@ -21,7 +21,7 @@ Proof.
 Qed.
 
 Lemma not_known_extmods :
-  forall pl p, ~ known_c03 pl p -> (3 <= point_index p)%nat -> p_extmods pl = None.
+  forall pl p, ~ known_c03 pl p -> (extmods_index pl <= point_index p)%nat -> p_extmods pl = None.
 Proof.
   intros pl p Hk Hi. destruct (p_extmods pl) as [t|] eqn:E; [|reflexivity].
   exfalso. apply Hk. right. left. split; [|exact Hi]. rewrite E. discriminate.
@@ -35,7 +35,8 @@ Proof.
   intros pl w0 p Hold Hk.
   assert (Hm : (2 <= point_index p)%nat -> closure_wt pl w0 = pw_wt w0).
   { intros Hi. apply closure_wt_none. eapply not_known_merge; eauto. }
-  assert (He : (3 <= point_index p)%nat -> extmods_refs pl (pw_refs w0) = pw_refs w0).
+  assert (He : (extmods_index pl <= point_index p)%nat ->
+               extmods_refs pl (pw_refs w0) = pw_refs w0).
   { intros Hi. apply extmods_refs_none. eapply not_known_extmods; eauto. }
   assert (H5 : p <> PtAfterCheckout) by (intros ->; apply Hk; right; right; left; reflexivity).
   assert (H10 : p <> PtCritAfterEdit)
@@ -43,8 +44,10 @@ Proof.
   assert (H11 : p <> PtAfterCrit)
     by (intros ->; apply Hk; right; right; right; right; reflexivity).
   unfold unchanged.
-  destruct p; try congruence; cbn in Hm, He;
-    unfold fault_at, rollback, world_at; cbn;
+  unfold extmods_index in He.
+  destruct (p_ext_early pl) eqn:Ee;
+    destruct p; try congruence; cbn in Hm, He;
+    unfold fault_at, rollback, world_at, extmods_index; rewrite Ee; cbn;
     try rewrite Hm by lia; try rewrite He by lia; auto.
 Qed.
 
@@ -52,7 +55,7 @@ Lemma known_classes_nonempty :
   exists pl w0 p, p_old_tree pl = pw_wt w0 /\ known_c03 pl p
                   /\ ~ unchanged w0 (ob_world (fault_at pl w0 p)).
 Proof.
-  exists (mkPlan None true false None [] 2 3 0 0 false).
+  exists (mkPlan None true false None [] 2 3 0 0 false false).
   exists (mkPW [(RBranch, 1); (RStack, 1)] 0).
   exists PtAfterCrit.
   split; [reflexivity|]. split.
@@ -68,9 +71,11 @@ Lemma refs_move_last :
 Proof.
   intros pl w0 p Hi.
   destruct (p_extmods pl) as [s|] eqn:E.
-  - destruct p; cbn in Hi; try lia; unfold world_at; cbn; auto;
+  - destruct (p_ext_early pl) eqn:Ee;
+      destruct p; cbn in Hi; try lia; unfold world_at, extmods_index; rewrite Ee; cbn; auto;
       right; (split; [discriminate | reflexivity]).
-  - destruct p; cbn in Hi; try lia; unfold world_at; cbn; auto;
+  - destruct (p_ext_early pl) eqn:Ee;
+      destruct p; cbn in Hi; try lia; unfold world_at, extmods_index; rewrite Ee; cbn; auto;
       left; apply extmods_refs_none; exact E.
 Qed.
 
@@ -365,7 +370,9 @@ Qed.
 
 Lemma refs_before_edit :
   forall pl w0, pw_refs (world_at pl w0 PtCritBeforeEdit) = extmods_refs pl (pw_refs w0).
-Proof. reflexivity. Qed.
+Proof.
+  intros pl w0. unfold world_at, extmods_index. destruct (p_ext_early pl); reflexivity.
+Qed.
 
 Lemma extmods_stack :
   forall pl r,
@@ -391,7 +398,9 @@ Lemma crash_in_edit_refs :
            (build_edits (p_patch_updates pl) (ref_get (extmods_refs pl (pw_refs w0)) RStack)
               (p_new_state pl) (if p_set_head pl then Some (p_new_head pl) else None))))
         (extmods_refs pl (pw_refs w0)).
-Proof. reflexivity. Qed.
+Proof.
+  intros pl w0 j. unfold crash_in_edit. cbn [pw_refs]. rewrite refs_before_edit. reflexivity.
+Qed.
 
 Lemma state_ref_two_valued_in_edit :
   forall pl w0 j, stack_ref_two_valued pl w0 (crash_in_edit pl w0 j).
@@ -408,7 +417,8 @@ Lemma full_prefix :
     pw_refs (crash_in_edit pl w0 (length (plan_edits pl (pw_refs (world_at pl w0 PtCritBeforeEdit)))))
     = pw_refs (world_at pl w0 PtCritAfterEdit).
 Proof.
-  intros pl w0. unfold crash_in_edit. cbn [pw_refs]. rewrite apply_prefix_full. reflexivity.
+  intros pl w0. unfold crash_in_edit. cbn [pw_refs]. rewrite apply_prefix_full.
+  unfold world_at, extmods_index. destruct (p_ext_early pl); reflexivity.
 Qed.
 
 Lemma state_ref_two_valued :
@@ -423,7 +433,15 @@ Proof.
                  \/ ref_get (extmods_refs pl (pw_refs w0)) RStack = Some (p_new_state pl)).
   { destruct (extmods_stack pl (pw_refs w0)); auto. }
   unfold stack_ref_two_valued in *.
-  destruct p; try exact Hlate; try exact Hmid; left; reflexivity.
+  assert (Hall : forall q, (point_index q <= 9)%nat ->
+            ref_get (pw_refs (world_at pl w0 q)) RStack = ref_get (pw_refs w0) RStack
+            \/ ref_get (pw_refs (world_at pl w0 q)) RStack = p_extmods pl
+            \/ ref_get (pw_refs (world_at pl w0 q)) RStack = Some (p_new_state pl)).
+  { intros q Hq. destruct (refs_move_last pl w0 q Hq) as [E|[_ E]]; rewrite E;
+      [left; reflexivity | exact Hmid]. }
+  assert (Hfin : pw_refs (world_at pl w0 PtAfterCrit) = pw_refs (world_at pl w0 PtCritAfterEdit)).
+  { unfold world_at, extmods_index. destruct (p_ext_early pl); reflexivity. }
+  destruct p; try exact Hlate; try (rewrite Hfin; exact Hlate); apply Hall; cbn; lia.
 Qed.
 
 Lemma plan_writes :
